@@ -766,6 +766,7 @@ pub(crate) struct ConnSim {
     pub sent: Vec<(Option<Vec<u8>>, i16, Vec<u8>)>,
     /// flags and opcode of the entries of `sent` that came from raw bytes (`b<hex>`): (index in `sent`, flags, opcode)
     pub raw_hdr: Vec<(usize, u8, u8)>,
+    pub keepalive_on: bool,
     /// raw bytes sent with `b` since the last frame boundary
     pub raw_tail: Vec<u8>,
     /// set when the server closed the stream or sent a frame on a stream nobody waits on
@@ -783,7 +784,29 @@ pub(crate) struct ConnSim {
     pub may_break: Option<String>,
 }
 
+/// The body of a BIG answer (`B` op): a fixed pattern; when a victim stream is given and the body is long enough, the
+/// bytes from offset 2^20 on LOOK like a whole response frame for that stream (a reader that stops reading this body
+/// after 1 MiB would parse them as the next frame and hand them to the victim).
+pub(crate) fn big_body(len: usize, victim: Option<i16>) -> Vec<u8> {
+    let mut b: Vec<u8> = (0..len).map(|i| (i % 251) as u8).collect();
+    if let Some(vs) = victim {
+        if len >= (1 << 20) + 17 {
+            let f = response_frame(vs, &[0xEE; 8]);
+            b[(1 << 20)..(1 << 20) + 17].copy_from_slice(&f);
+        }
+    }
+    b
+}
+
 pub(crate) fn tag_of(body: &[u8]) -> String {
+    if body.len() > 64 {
+        // long bodies are printed as length + FNV-1a
+        let mut h: u32 = 2166136261;
+        for b in body {
+            h = (h ^ *b as u32).wrapping_mul(16777619);
+        }
+        return format!("big:{}:{}", body.len(), h);
+    }
     if body.len() == 8 {
         let t = u64::from_be_bytes(body.try_into().unwrap());
         if t == u64::MAX { "unsolicited".to_owned() } else { t.to_string() }
@@ -857,6 +880,7 @@ impl ConnSim {
             sent: Vec::new(),
             raw_tail: Vec::new(),
             raw_hdr: Vec::new(),
+            keepalive_on: keepalive.is_some(),
             must_break: None,
         }
     }
@@ -1010,6 +1034,37 @@ impl ConnSim {
     pub async fn op(&mut self, op: &str, ctx: &mut Ctx) -> bool {
         let Some((c, arg)) = split_op(op) else { return false };
         match c {
+            // `B<j>:<len>:<k>:<cut>`: the server answers the j-th unanswered request with a body of `len` bytes
+            // (`big_body`, the tail addressed to the k-th unanswered request's stream), written at once (cut = 0) or in
+            // two writes
+            'B' => {
+                let f: Vec<usize> = arg.split(':').filter_map(|x| x.parse::<usize>().ok()).collect();
+                if f.len() != 4 || arg.split(':').count() != 4 || f[1] < 65 || f[1] > (8 << 20) || self.events_rx.is_some() || self.keepalive_on {
+                    return false;
+                }
+                let (j, len, k, cut) = (f[0], f[1], f[2], f[3]);
+                if self.server.is_none() || !self.raw_tail.is_empty() || j >= self.unanswered.len() {
+                    return true;
+                }
+                let victim = if k != j && k < self.unanswered.len() { Some(self.unanswered[k].0) } else { None };
+                let (s, req) = self.unanswered.remove(j);
+                let body = big_body(len, victim);
+                let frame = response_frame(s, &body);
+                self.sent.push((Some(req), s, body));
+                if cut > 0 && cut < frame.len() {
+                    self.server_write(&frame[..cut]).await;
+                    self.settle(ctx).await;
+                    self.server_write(&frame[cut..]).await;
+                } else {
+                    self.server_write(&frame).await;
+                }
+                self.settle(ctx).await;
+                // a body of several MiB crosses the in-memory pipe in pieces: give the reader its turns
+                for _ in 0..8 {
+                    self.settle(ctx).await;
+                }
+                true
+            }
             's' | 'S' | 'g' | 'G' | 'x' | 'w' | 'h' => {
                 if !arg.is_empty() {
                     return false;
